@@ -44,10 +44,11 @@ type kase struct {
 }
 
 type verdict struct {
-	Reported  bool
-	Diags     []string
-	Fails     bool
-	RunDetail string
+	Reported   bool
+	Diags      []string
+	Fails      bool
+	FailsCount bool // the failure is "invalid number of arguments"
+	RunDetail  string
 }
 
 var (
@@ -119,6 +120,7 @@ func evaluate(k kase) (verdict, error) {
 			v.RunDetail += fmt.Sprintf(" top=%s:%s@%v", top.Package, top.Name, top.Source)
 			if atLine && top.Name == k.Callee && (k.WantPkg == "" || top.Package == k.WantPkg) {
 				v.Fails = true
+				v.FailsCount = strings.HasPrefix(msg, "invalid number of arguments")
 			}
 		}
 	}
@@ -143,6 +145,13 @@ func check(r *core.Run, k kase) {
 	}
 	if v.Fails && !v.Reported && !k.HasKey {
 		r.Violate("c19", "missed:"+k.Class, k, "a failing direct call (no &key) is reported",
+			"not reported; run: "+v.RunDetail, "")
+	}
+	// second sentence, which has no keyword carve-out: an accepted program never fails with an
+	// invalid-number-of-arguments error on a direct call (other binder errors of a keyword signature -- an unknown
+	// keyword, a keyword without value -- are only subject to the soundness half)
+	if v.FailsCount && !v.Reported && k.HasKey {
+		r.Violate("c19", "accepted-but-wrong-count:"+k.Class, k, "an accepted direct call never fails with invalid number of arguments",
 			"not reported; run: "+v.RunDetail, "")
 	}
 }
